@@ -71,7 +71,7 @@ def conclude(job, spec, a, t0):
                 violations.append((oname, r))
         elif r["status"] != "proved":
             undecided.append((oname, r))
-    for pid, why in job.fam.dropped.items():
+    for pid, why in list(job.fam.dropped.items()) + list(job.verus_rejected.items()):
         undecided.append(("%s/%s" % (prop, pid), {"status": "undecided", "detail": why, "engine": "-", "pid": pid}))
     # canaries: every canary obligation that is about the mutated contract must be refuted
     canary_bad = []
@@ -299,7 +299,7 @@ def write_evidence(job, spec, a, t0, violations=(), undecided=(), known_hit=(), 
         "checker_cmd": "verus <work>/%s/verus/v*.rs --output-json --time --rlimit 60 ; cargo kani -Z function-contracts -Z stubbing -j N --default-unwind 34 (in <work>/%s/fam)" % (job.prop, job.prop),
         "trusted_base": spec.get("trusted", []) + props.TRUSTED_COMMON,
         "programs": len([p for p in job.fam.programs.values() if p.canary_of is None]),
-        "programs_dropped_undecided": job.fam.dropped,
+        "programs_dropped_undecided": dict(job.fam.dropped, **{k: v for k, v in job.verus_rejected.items()}),
         "exhaustive": False,
         "family": {"tier": job.tier, "seed": job.seed, "bounds": spec.get("bounds", {}).get(job.tier, "")},
         "engines": {"verus": dict(job.stats["verus"], version=_ver("verus")), "kani": dict(job.stats["kani"], version=_ver("kani"))},
